@@ -161,6 +161,24 @@ func runC12(c *fw.Ctx) {
 	if !compare("after import") {
 		return
 	}
+	// the partial trie is a trie: asked for the same keys it may export them again (if it does, the second-generation
+	// partial trie has the same root and weight); asked for a key it does not cover it may fail, but it must return
+	if len(m) > 0 {
+		if re, rerr := part.GetPath(req); rerr == nil {
+			part2 := wmpt.New(nil, nil)
+			if derr := part2.Deserialize(re); derr != nil {
+				fail("a re-export of the requested keys from the partial trie does not deserialize: %v", derr)
+				return
+			}
+			if !bytes.Equal(part2.Root(), src.Root()) || part2.Weight() != src.Weight() {
+				fail("a second-generation partial trie has root %x weight %d, the source %x / %d", part2.Root(), part2.Weight(), src.Root(), src.Weight())
+				return
+			}
+			c.Count("re_exports_from_the_partial_trie", 1)
+		}
+		_, _ = part.GetPath([][]byte{mkKey()})
+		_, _ = part.GetPath(append([][]byte{mkKey(), mkKey()}, req...))
+	}
 	c.Count("imports", 1)
 	c.Count(fmt.Sprintf("shape:%d", shape), 1)
 	if nreq > 10 {
@@ -261,7 +279,7 @@ func init() {
 		ID:    "C12",
 		Level: "exploration",
 		Rule: "cases enumerate root shape (empty, single entry, shared-prefix short root, branch root) x requested-key-set size in {0,1,2,5,9,10,11,12,20,40} (both sides of the >10 parallel collection path) x source (in memory with hashes finalised, or committed at a collapse level 0..5 and reopened from the hash or viewed through CopyRoot(level), in half of those cases with the trie the view was taken from updated afterwards); case 0 is one export of all keys of a 66 000-entry trie (far more than 2^17 nodes); " +
-			"requested keys mix present and absent ones; a fifth of the sources hold several entries with identical value and weight; GetPath export -> Deserialize into a storage-less trie; then 1..10 mirrored updates/deletes restricted to requested keys on both tries. Oracle: Deserialize succeeds; Root()/Weight() of the partial trie equal the source's and the independent reference after import and after each operation; " +
+			"requested keys mix present and absent ones; a fifth of the sources hold several entries with identical value and weight; GetPath export -> Deserialize into a storage-less trie; then 1..10 mirrored updates/deletes restricted to requested keys on both tries. the partial trie is asked to export the requested keys again (a second-generation partial trie must agree) and keys it does not cover (it must return); Oracle: Deserialize succeeds; Root()/Weight() of the partial trie equal the source's and the independent reference after import and after each operation; " +
 			"error/no-error outcomes agree. distinct non-trivial = distinct (case description, trace)",
 		Cases: func(tier string) int {
 			if tier == "thorough" {
@@ -270,7 +288,7 @@ func init() {
 			return 19200
 		},
 		Run:    runC12,
-		Floors: map[string]int64{"imports": 18000, "mirrored_ops": 50000, "imports_above_parallel_threshold": 5000, "imports_from_collapsed_source": 5000, "shape:0": 1000, "shape:1": 1000, "shape:2": 1000, "shape:3": 1000, "imports_from_copyroot_view": 2000, "views_whose_origin_moved_on": 800, "sources_with_equal_entries": 2500, "huge_exports": 1},
+		Floors: map[string]int64{"imports": 18000, "mirrored_ops": 50000, "imports_above_parallel_threshold": 5000, "imports_from_collapsed_source": 5000, "shape:0": 1000, "shape:1": 1000, "shape:2": 1000, "shape:3": 1000, "imports_from_copyroot_view": 2000, "views_whose_origin_moved_on": 800, "re_exports_from_the_partial_trie": 5000, "sources_with_equal_entries": 2500, "huge_exports": 1},
 		Race:   true,
 		Assumptions: []string{
 			"in-memory sources have their hashes finalised through Root() before GetPath (the usage the package's own tests show)",
